@@ -505,7 +505,14 @@ func (f *SexpFloat) SexpString(ps *PrintState) string {
 	if f.Scientific {
 		return strconv.FormatFloat(f.Val, 'e', -1, SexpFloatSize)
 	}
-	return strconv.FormatFloat(f.Val, 'f', -1, SexpFloatSize)
+	s := strconv.FormatFloat(f.Val, 'f', -1, SexpFloatSize)
+	if !strings.ContainsAny(s, ".eIN") {
+		// a whole number: keep it a float literal, so that the
+		// printed form reads back as a float (and large values
+		// do not read as out-of-range integers).
+		s += ".0"
+	}
+	return s
 }
 
 func (c *SexpChar) SexpString(ps *PrintState) string {
